@@ -198,7 +198,11 @@ func candidates(cur *Case, dir string) []*Case {
 		// the initial payload becomes an ordinary first write
 		for _, v := range writeSizes {
 			if v > 0 {
-				add(func(c *Case) bool { c.P, c.PadHi = 0, false; c.C2S.Sizes = append([]int{v}, c.C2S.Sizes...); return len(c.C2S.Sizes) <= 3 })
+				add(func(c *Case) bool {
+					c.P, c.PadHi = 0, false
+					c.C2S.Sizes = append([]int{v}, c.C2S.Sizes...)
+					return len(c.C2S.Sizes) <= 3
+				})
 			}
 		}
 	}
@@ -219,7 +223,11 @@ func candidates(cur *Case, dir string) []*Case {
 	}
 	ri := readerIndex(m)
 	for i := 0; i < ri && i < len(readers); i++ {
-		add(func(c *Case) bool { x := mine(c); x.RM, x.Bufs = readers[i].rm, append([]int{}, readers[i].bufs...); return true })
+		add(func(c *Case) bool {
+			x := mine(c)
+			x.RM, x.Bufs = readers[i].rm, append([]int{}, readers[i].bufs...)
+			return true
+		})
 	}
 	for i := range m.Sizes {
 		add(func(c *Case) bool {
